@@ -2,6 +2,7 @@ package main
 
 import (
 	"fmt"
+	"go/types"
 	"sync"
 
 	"golang.org/x/tools/go/ssa"
@@ -34,16 +35,16 @@ type thread struct {
 }
 
 type scheduler struct {
-	threads   []*thread
-	cur       int // index of the running thread
-	lockOwner map[string]int
-	rlocks    map[string]map[int]int
-	mainWake  chan struct{}
-	err       interface{}
-	switches  int
+	threads     []*thread
+	cur         int // index of the running thread
+	lockOwner   map[string]int
+	rlocks      map[string]map[int]int
+	mainWake    chan struct{}
+	err         interface{}
+	switches    int
 	preemptions int
-	points    int
-	wg        sync.WaitGroup
+	points      int
+	wg          sync.WaitGroup
 }
 
 type threadAbort struct{}
@@ -158,7 +159,92 @@ func (m *Machine) schedRelease(fr *frame, key string, shared bool) {
 	m.syncPoint(fr, "after unlock")
 }
 
+// sync.Pool model: a LIFO free list per pool (the behaviour of the real pool within one P when no GC
+// intervenes, which is the behaviour that exposes stale state in recycled objects). An object that is
+// in the pool is owned by nobody: putting it a second time (two later Gets would hand the same object to
+// two calls) and touching it after Put are reported as failures by the concurrency harnesses (C19, where
+// shared-memory tracking is switched on); they are harmless in a sequential run and ignored elsewhere.
+type poolState struct {
+	free []value
+}
+
+func poolObjOf(v value) *object {
+	switch v := v.(type) {
+	case iface:
+		return poolObjOf(v.v)
+	case pointer:
+		return v.obj
+	}
+	return nil
+}
+
 func init() {
+	poolKey := func(v value) string {
+		p := v.(pointer)
+		if p.obj.global != nil {
+			return p.obj.global.String() + fmt.Sprint(p.path)
+		}
+		return fmt.Sprintf("obj%d%v", p.obj.id, p.path)
+	}
+	stubs["(*sync.Pool).Get"] = func(m *Machine, fr *frame, fn *ssa.Function, args []value) value {
+		if m.sched != nil {
+			m.syncPoint(fr, "before Pool.Get")
+		}
+		k := poolKey(args[0])
+		if m.pools == nil {
+			m.pools = map[string]*poolState{}
+		}
+		ps := m.pools[k]
+		if ps != nil && len(ps.free) > 0 {
+			v := ps.free[len(ps.free)-1]
+			ps.free = ps.free[:len(ps.free)-1]
+			if o := poolObjOf(v); o != nil {
+				delete(m.pooled, o)
+			}
+			return v
+		}
+		// New field
+		p := args[0].(pointer)
+		st := fn.Signature.Recv().Type().Underlying().(*types.Pointer).Elem().Underlying().(*types.Struct)
+		for i := 0; i < st.NumFields(); i++ {
+			if st.Field(i).Name() == "New" {
+				nf := fr.load(pointer{obj: p.obj, path: extPath(p.path, i)})
+				if nf == nil {
+					return iface{}
+				}
+				if c, ok := nf.(*closure); ok && c == nil {
+					return iface{}
+				}
+				return m.call(nf, nil, fr, nil)
+			}
+		}
+		panic(unsupported("sync.Pool without field New"))
+	}
+	stubs["(*sync.Pool).Put"] = func(m *Machine, fr *frame, fn *ssa.Function, args []value) value {
+		if m.sched != nil {
+			m.syncPoint(fr, "before Pool.Put")
+		}
+		k := poolKey(args[0])
+		if m.pools == nil {
+			m.pools = map[string]*poolState{}
+		}
+		if m.pooled == nil {
+			m.pooled = map[*object]string{}
+		}
+		ps := m.pools[k]
+		if ps == nil {
+			ps = &poolState{}
+			m.pools[k] = ps
+		}
+		if o := poolObjOf(args[1]); o != nil {
+			if at, dup := m.pooled[o]; dup && m.trackShared {
+				panic(pathEnd{kind: "fail", msg: "an object is returned to a sync.Pool twice (first at " + at + ", again at " + fr.pos() + "): two later Gets hand the same object to two calls", site: fr.stack()})
+			}
+			m.pooled[o] = fr.pos()
+		}
+		ps.free = append(ps.free, args[1])
+		return nil
+	}
 	harnessAPI["vPar"] = func(m *Machine, fr *frame, fn *ssa.Function, args []value) value {
 		if m.sched != nil {
 			panic(unsupported("nested vPar"))
